@@ -14,6 +14,7 @@ import (
 	"strconv"
 	"strings"
 	"sync"
+	"syscall"
 	"time"
 
 	"verif/internal/kf"
@@ -140,8 +141,38 @@ func isolateReplays(root string) {
 	}
 }
 
+// guardDisk keeps the Go build cache from filling the disk: every generated
+// design is a set of packages nobody has compiled before, so the cache grows
+// by gigabytes per campaign and Go only trims entries after days. When less
+// than VERIF_MIN_FREE_GB (default 12) is free on the cache's file system the
+// cache is emptied before the run (the run is then slower, not wrong).
+func guardDisk() {
+	out, err := exec.Command("go", "env", "GOCACHE").Output()
+	if err != nil {
+		return
+	}
+	dir := strings.TrimSpace(string(out))
+	var st syscall.Statfs_t
+	if dir == "" || syscall.Statfs(dir, &st) != nil {
+		return
+	}
+	minGB := 12
+	if v, err := strconv.Atoi(os.Getenv("VERIF_MIN_FREE_GB")); err == nil && v > 0 {
+		minGB = v
+	}
+	free := st.Bavail * uint64(st.Bsize) >> 30
+	if free >= uint64(minGB) {
+		return
+	}
+	fmt.Printf("note: %d GiB free on the Go build cache's file system (< %d): emptying the cache (go clean -cache)\n", free, minGB)
+	c := exec.Command("go", "clean", "-cache")
+	c.Env = goEnv()
+	_ = c.Run()
+}
+
 func runCheck(id string, spec Spec, tier string, seed int64) int {
 	isolateReplays(verifRoot())
+	guardDisk()
 	if spec.Engine == "B" {
 		return runEngineB(id, spec, tier, seed)
 	}
